@@ -64,9 +64,12 @@ LEVEL_TEXT = (
     "point sequence, every dialect and every flag setting the rendered string literal is exactly one token of "
     "the server's lexical grammar, denotes exactly the value and leaves the rest of the statement untouched "
     "(also through the driver's %% collapse, the N prefix and inside IN lists); integers, dates/times, "
-    "booleans and NULL likewise; refuted (with guarded complements) for non-literal Numeric/Float texts, for a "
-    "negative literal after unary minus, for the literal_execute re-split of IN lists under bind_expression "
-    "and for the compiler's %(name)s passes (qmark/format/numeric paramstyles) running over rendered literals."
+    "booleans and NULL likewise; refuted (with guarded complements) for non-literal Numeric/Float texts and for "
+    "the compiler's %(name)s passes (qmark/format/numeric paramstyles) running over rendered literals. Since the "
+    "fixes 83f298d (unary minus) and 550a51d (IN list under bind_expression with literal_execute) the "
+    "corresponding theorems are unguarded: the rendered unary minus is an operator for every operand text, and "
+    "every element of such an IN list is wrapped as a whole. Post-compile substitution is proved to be a "
+    "single pass that never re-scans the substituted literals."
 )
 LEVEL_NOTE = (
     "Trusted: Coq kernel; the transcription (source pin + regenerated replace tables + correspondence on "
@@ -99,6 +102,7 @@ PIN_ANCHORS = [
     (CO, "SQLCompiler.render_literal_bindparam"),
     (CO, "SQLCompiler._literal_execute_expanding_parameter_literal_binds"),
     (CO, "SQLCompiler._process_parameters_for_postcompile"),
+    (CO, "SQLCompiler._generate_generic_unary_operator"),
     ("lib/sqlalchemy/dialects/oracle/types.py", "_OracleDateLiteralRender"),
     ("lib/sqlalchemy/dialects/sqlite/base.py", "_DateTimeMixin.literal_processor"),
 ]
@@ -928,6 +932,11 @@ def _render(inp):
     if len(ms) != 1:
         raise RuntimeError("harness: %d placeholders in %r" % (len(ms), bound))
     pre, post = bound[: ms[0].start()], bound[ms[0].end() :]
+    if pos == 10:
+        # operand of unary minus: the operator belongs to the observation ("-5" / "- -5")
+        if not pre.endswith("-"):
+            raise RuntimeError("harness: unary minus not found: %r" % bound)
+        pre = pre[:-1]
     if pos in (2, 9):
         # (__[POSTCOMPILE_zq])  ->  the list stands between the parentheses
         if not (pre.endswith("(") and post.startswith(")")):
@@ -1274,6 +1283,13 @@ def oracle(c, obs):
 
     # the literal (list) must be tokens denoting the values, and the remainder must be untouched
     text = tail
+    if pos == 10:
+        # the unary operator, then the literal: "--" would start a comment
+        if not text.startswith("-"):
+            return "%s: the unary minus disappeared: %r" % (what, text[:40])
+        if text.startswith("--"):
+            return "%s: the literal %r follows the minus sign directly: '--' starts a comment" % (what, lit[1:20])
+        text = text[1:].lstrip(" ")
     n = len(vals) if pos in (2, 9) else 1
     for i in range(n):
         if pos == 9:
@@ -1295,7 +1311,7 @@ def oracle(c, obs):
     if text != dpost and not (kinds == {4} and text.lstrip(SQLWS) == dpost.lstrip(SQLWS)):
         return "%s: the remainder of the statement changed: %r instead of %r" % (what, text[:80], dpost[:80])
     # a '-' in front of a literal starting with '-' begins a comment
-    if lit.startswith("-") and pre.endswith("-"):
+    if pos != 10 and lit.startswith("-") and pre.endswith("-"):
         return "%s: the literal %r follows a minus sign: '--' starts a comment" % (what, lit[:20])
     # execution on the default SQLite dialect
     if cfg[0] == 0 and cfg[2] in (6, 0):
